@@ -5,8 +5,8 @@ import (
 	"context"
 	"encoding/json"
 	"fmt"
-	"os"
 	"io"
+	"os"
 	"sort"
 	"strings"
 	"testing"
@@ -94,7 +94,7 @@ type dbHarness struct {
 	closeEach   bool
 
 	// crash machinery
-	durs      []durPoint
+	durs       []durPoint
 	known5_1   bool
 	forkMode   string // "", "sample", "all"
 	forkN      int
@@ -103,15 +103,15 @@ type dbHarness struct {
 	crashOpen  int             // >0: crash the next incarnation after this many mutations (crash during recovery)
 
 	// I/O fault injection (C43)
-	faultsArmed   bool
-	dynFaults     []*simfs.Fault // one-shot rules armed by "armfault" ops
-	faultsStopped bool
-	rotInc        *simrt.Inc // side incarnation reading a damaged copy (C27)
-	delays        int
-	extStore      remote.Storage // external object store (survives crashes: it is remote)
+	faultsArmed    bool
+	dynFaults      []*simfs.Fault // one-shot rules armed by "armfault" ops
+	faultsStopped  bool
+	rotInc         *simrt.Inc // side incarnation reading a damaged copy (C27)
+	delays         int
+	extStore       remote.Storage // external object store (survives crashes: it is remote)
 	faultAnnounced bool
-	opening       bool // pebble.Open of the current incarnation is running
-	openFailed    bool // ... has returned an error
+	opening        bool // pebble.Open of the current incarnation is running
+	openFailed     bool // ... has returned an error
 }
 
 func (h *dbHarness) count(k string, n int64) { h.stat[k] += n }
@@ -332,6 +332,11 @@ func (h *dbHarness) makeOptionsOn(disk *simfs.Disk) *pebble.Options {
 	}
 	disk.ShuffleList = c.ShuffleList
 	o.EventListener = h.listener()
+	if os.Getenv("VERIF_DEBUG") == "2" {
+		l := pebble.TeeEventListener(*o.EventListener, pebble.MakeLoggingEventListener(debugLogger{h}))
+		o.EventListener = &l
+		simfs.DebugFaults = func(s string) { fmt.Fprintf(os.Stderr, "[seg %d] %s\n", h.segment, s) }
+	}
 	return o
 }
 
@@ -340,7 +345,7 @@ func (h *dbHarness) listener() *pebble.EventListener {
 		BackgroundError: func(err error) {
 			h.count("ev.bgerror", 1)
 			if os.Getenv("VERIF_DEBUG") != "" {
-				fmt.Fprintf(os.Stderr, "background error: %v\n", err)
+				fmt.Fprintf(os.Stderr, "background error (segment %d, opening=%v): %v\n", h.segment, h.opening, err)
 			}
 			if len(h.bgErrors) < 8 {
 				h.bgErrors = append(h.bgErrors, err.Error())
@@ -465,6 +470,16 @@ func (h *dbHarness) drive() {
 	db, err := pebble.Open("db", h.opts)
 	h.opening, h.openFailed = false, err != nil
 	if err != nil {
+		if os.Getenv("VERIF_DEBUG") != "" {
+			fmt.Fprintf(os.Stderr, "Open failed in segment %d: %v\nfiles:", h.segment, err)
+			for _, n := range h.disk.ListNoFault("db") {
+				if data, rerr := h.disk.ReadFile("db/" + n); rerr == nil {
+					fmt.Fprintf(os.Stderr, " %s(%d)", n, len(data))
+				}
+			}
+			fmt.Fprintln(os.Stderr)
+			debugDumpWALs(h)
+		}
 		if h.pendingCtx != nil && !h.inc.FaultFired {
 			Violation("recovery", "Open failed after a crash whose only fault is loss of unsynced data: %v", err)
 		}
